@@ -11,8 +11,8 @@ import (
 
 // ---- building blocks ----
 
-func lb(kind, i int) label           { return label{kind: kind, i: i} }
-func lSend(i int, bs []byte) label   { return label{kind: aSend, i: i, bs: bs} }
+func lb(kind, i int) label         { return label{kind: kind, i: i} }
+func lSend(i int, bs []byte) label { return label{kind: aSend, i: i, bs: bs} }
 func lStartL(i, tr int, reads bool) label {
 	return label{kind: lStart, i: i, tr: tr, reads: reads}
 }
@@ -104,7 +104,8 @@ func generate(e *vh.Env) []scenario {
 				ph = append(ph, p)
 			}
 		}
-		out = append(out, scenario{class: class, maxc: maxc, strategy: staticStrategy(ph), closeErr: r.Intn(3) == 0})
+		out = append(out, scenario{class: class, maxc: maxc, strategy: staticStrategy(ph), closeErr: r.Intn(3) == 0,
+			slowExit: strings.HasPrefix(class, "two-race/") || strings.HasPrefix(class, "stalled-race/") || r.Intn(4) == 0})
 	}
 	big := e.Thorough || e.Search
 	ks := func() []int { // queued sends
@@ -142,6 +143,34 @@ func generate(e *vh.Env) []scenario {
 				add("handler-end/"+rkNames[k], -1, ph...)
 			}
 		}
+	}
+	// 1c. histories on one manager: a session ends with a write error while a payload is in hand; afterwards a healthy
+	//     session queues several payloads of the same sizes before the first is written (its peer starts reading
+	//     later), then Close: the stream must be exactly those payloads
+	nHist := e.Scale(6, 30)
+	for n := 0; n < nHist && want("history"); n++ {
+		sz := 1 + r.Intn(3)
+		mk := func() []byte {
+			p := payload(r, &seq)
+			for len(p) < sz {
+				p = append(p, p[0]+1)
+			}
+			return p[:sz]
+		}
+		fault := lWF(0, r.Intn(2))
+		var first [][]label
+		if r.Intn(2) == 0 { // the write is already blocked when the fault strikes
+			first = [][]label{{lStartL(0, trPipe, false)}, {lSend(0, mk()), lSend(0, mk())}, {fault}}
+		} else {
+			first = [][]label{{lStartL(0, r.Intn(2), true)}, {fault}, {lSend(0, mk()), lSend(0, mk())}}
+		}
+		k := 2 + r.Intn(4)
+		var ss []label
+		for j := 0; j < k; j++ {
+			ss = append(ss, lSend(1, mk()))
+		}
+		ph := append(first, []label{lStartL(1, trPipe, false)}, ss, []label{lb(aPeerRead, 1)}, []label{lb(aLocalClose, 1)})
+		add("history/write-error-then-sends", -1, ph...)
 	}
 	// 2. every order of two terminating events: one after the other, and racing in one burst
 	for tr := 0; tr < 2; tr++ {
@@ -320,17 +349,17 @@ func generate(e *vh.Env) []scenario {
 	nAcc := e.Scale(36, 400)
 	for n := 0; n < nAcc && want("accept"); n++ {
 		maxc := int64([]int{1, 2, 3, 1, 2, 3, 0}[n%7])
-		out = append(out, scenario{class: fmt.Sprintf("accept/max=%d", maxc), maxc: maxc, strategy: walk(rand.New(rand.NewSource(r.Int63())), walkCfg{accept: true, steps: 8 + r.Intn(8)}), closeErr: r.Intn(3) == 0})
+		out = append(out, scenario{class: fmt.Sprintf("accept/max=%d", maxc), maxc: maxc, strategy: walk(rand.New(rand.NewSource(r.Int63())), walkCfg{accept: true, steps: 8 + r.Intn(8)}), closeErr: r.Intn(3) == 0, slowExit: r.Intn(2) == 0})
 	}
 	// 8. several sessions on one manager
 	nMulti := e.Scale(30, 400)
 	for n := 0; n < nMulti && want("multi"); n++ {
-		out = append(out, scenario{class: "multi", maxc: -1, strategy: walk(rand.New(rand.NewSource(r.Int63())), walkCfg{direct: 2 + r.Intn(3), steps: 6 + r.Intn(8)}), closeErr: r.Intn(3) == 0})
+		out = append(out, scenario{class: "multi", maxc: -1, strategy: walk(rand.New(rand.NewSource(r.Int63())), walkCfg{direct: 2 + r.Intn(3), steps: 6 + r.Intn(8)}), closeErr: r.Intn(3) == 0, slowExit: r.Intn(2) == 0})
 	}
 	// 9. one session, random walk with bursts
 	nWalk := e.Scale(120, 2500)
 	for n := 0; n < nWalk && want("walk"); n++ {
-		out = append(out, scenario{class: "walk", maxc: -1, strategy: walk(rand.New(rand.NewSource(r.Int63())), walkCfg{direct: 1, steps: 4 + r.Intn(8)}), closeErr: r.Intn(3) == 0})
+		out = append(out, scenario{class: "walk", maxc: -1, strategy: walk(rand.New(rand.NewSource(r.Int63())), walkCfg{direct: 1, steps: 4 + r.Intn(8)}), closeErr: r.Intn(3) == 0, slowExit: r.Intn(2) == 0})
 	}
 	return out
 }
